@@ -17,6 +17,11 @@ FIRST = {
     "S08b-scheduler-start-count-ignores-retraction": ("missed", "C08 gained scripted_trace (retracting plan-ahead policy whose attributes match the offers it asks for)"),
     "S17b-stale-topological-order-cache": ("missed", "C17 gained graph_history: all clauses re-asked after every add_node/add_child/remove on one Graph object"),
     "S01b-reload-profile-skips-booking": ("missed", None),
+    "S01c-zero-quantity-entry-breaks-loop": ("missed by C01 (caught by C04 resources_machine)", "C01 worlds now contain demand vectors with a zero-quantity entry ahead of the real ones"),
+    "S02c-release-event-uses-finished-tasks-release-time": ("missed (oracle gap: the judge compared the start with the release *event*, which the change itself moves)", "C02 also requires start >= Task.intended_release_time (graph release, closed-loop follow-up = completion + 1)"),
+    "S04c-rollback-releases-prior-holdings": ("missed (shape too rare)", "C04 resources_machine draws requests that name one type by 'any' and by instance id (rollback path), also for computations that already hold resources"),
+    "S07c-submission-resolution-walks-past-join": ("missed (generator and oracle gap: two conditional regions in sequence were rare, and the judge trusted the instantiation-time probabilities)", "two-region graphs are forced in 1/4 of the heavy cases; new clause: a completed conditional whose described children have a chance must not be instantiated with every child at probability 0"),
+    "S10c-clockwork-admission-boundary-le": ("missed by C10 (caught by C12 and C15)", "C10 gained clockwork_history: C15's multi-invocation histories judged for one-decision-per-request, side effects and exceptions"),
     "S13b-edf-sorts-by-raw-deadline-number": ("missed", "C13 now writes some deadlines in milliseconds (class mixed_time_units): priorities are instants, not numerals"),
 }
 NOTES = {
